@@ -649,11 +649,6 @@ Proof. induction g as [s nl|i IH nl]; cbn; [reflexivity | now rewrite IH]. Qed.
 Lemma g_of_to_g s a : g_name (to_g s a) = s /\ g_aty (to_g s a) = a.
 Proof. induction a as [nl|nl i [IH1 IH2]]; cbn; [now split | now rewrite IH1, IH2]. Qed.
 
-(* a name survives the text round trip iff the parser cannot mistake its ends for syntax *)
-Definition name_ok (s : string) : bool :=
-  match strip_suffix_char "!" s with Some _ => false | None => true end &&
-  match strip_prefix_char "[" s with Some _ => false | None => true end.
-
 Lemma render_len s a : (adepth a <= String.length (render s a))%nat.
 Proof.
   induction a as [x|x i IH]; cbn [adepth render String.length]; [lia|].
@@ -1050,7 +1045,7 @@ Proof.
   repeat split.
   - apply wf_T. lia.
   - destruct a; reflexivity.
-  - destruct a; [now rewrite !as_list_T_named | now rewrite !as_list_T_list].
+  - destruct a; cbn [awith_null]; [now rewrite !as_list_T_named | now rewrite !as_list_T_list].
   - cbn [andb]. apply a_same_depth. exact D.
 Qed.
 
@@ -1084,3 +1079,17 @@ Lemma intersect_fuel_adequate f a b : wf_ty a = true -> wf_ty b = true -> (31 <=
 Proof.
   intros Wa Wb Hf. wfd Wa s a0 Hd. wfd Wb s0 a1 Hd0. rewrite !intersect_impl_T; try assumption; try reflexivity; unfold mask_fuel; lia.
 Qed.
+
+Lemma parse_display_roundtrip_opt t : wf_ty t = true -> name_ok (tbase t) = true ->
+  ty_parse (ty_display t) = Some t.
+Proof. intros W Hn. unfold ty_parse. now rewrite parse_display_roundtrip. Qed.
+
+(* helpers for the non-vacuity examples of C17.v / C16.v *)
+Definition ex_t (s : string) : ty := match ty_parse s with Some t => t | None => mkTy "?" 0 end.
+Fixpoint nest (n : nat) (t : ty) : res ty :=
+  match n with O => Ok t | S k => do t' <- nest k t; ty_list t' (Nat.even k) end.
+Fixpoint deep_text (n : nat) : string :=
+  match n with
+  | O => "Int!"
+  | S k => String "[" (deep_text k +++ (if Nat.even k then "]" else "]!"))
+  end.
